@@ -112,6 +112,10 @@ func ShapesFor(f Field, c *Counter, gob bool) []Shaped {
 			mk("nl3", ap.NaturalLanguageValues{{Ref: "en", Value: ap.Content("txt-english")}, {Ref: "fr", Value: ap.Content("txt-french")}, {Ref: "de-DE", Value: ap.Content("txt-german")}}),
 			mk("nl-untagged-last", ap.NaturalLanguageValues{{Ref: "en", Value: ap.Content("txt-english")}, {Ref: "fr", Value: ap.Content("txt-french")}, {Ref: ap.NilLangRef, Value: ap.Content("txt-default")}}),
 		}
+		// every character class the string writers treat on their own (each control character, DEL, quote, backslash, slash, the
+		// JSONP separators U+2028/U+2029, a replacement character, 2-, 3- and 4-byte runes): valid UTF-8, so it must come back byte for byte
+		out = append(out, mk("nl1-special", ap.NaturalLanguageValues{{Ref: ap.NilLangRef, Value: ap.Content(SpecialText)}}),
+			mk("nlN-special", ap.NaturalLanguageValues{{Ref: "en", Value: ap.Content(SpecialText)}, {Ref: "fr", Value: ap.Content("autre " + SpecialText)}}))
 		if gob {
 			// a list may hold several values under one tag (the JSON form cannot say that, the binary form must keep it)
 			out = append(out, mk("nl-repeated-tag", ap.NaturalLanguageValues{{Ref: ap.NilLangRef, Value: ap.Content("txt-first")}, {Ref: ap.NilLangRef, Value: ap.Content("txt-second")}, {Ref: "en", Value: ap.Content("txt-third")}, {Ref: "en", Value: ap.Content("txt-fourth")}}))
@@ -206,6 +210,18 @@ func ShapesFor(f Field, c *Counter, gob bool) []Shaped {
 	}
 	return nil
 }
+
+// SpecialText holds every character class the JSON string writer distinguishes, as valid UTF-8.
+var SpecialText = func() string {
+	var b []byte
+	b = append(b, "txt-special:"...)
+	for c := byte(1); c < 0x20; c++ {
+		b = append(b, c, 'x')
+	}
+	b = append(b, 0x7f)
+	b = append(b, " \" \\ / < > & ' \u2028 | \u2029 | \ufffd | é | 日 | 😀 | \\n \\u0041 end"...)
+	return string(b)
+}()
 
 // Cell is one value of the single-cell enumeration: a struct with id, type and exactly one other field set.
 type Cell struct {
